@@ -1,4 +1,5 @@
 import SmtpV.Proofs.ServerInv
+import SmtpV.Model.Client
 import SmtpV.Spec.Monitors
 import SmtpV.Props.C03
 import SmtpV.Proofs.OrderFacts
@@ -181,5 +182,30 @@ theorem C09_at_most_once (s : S) (h : Props.C03.Fresh s) (pre mid post : List Ev
   obtain ⟨m, hm⟩ := run_ok_of_check (Props.C03.order_accepts_every_connection s h)
   rw [htr] at hm
   exact accepted_auth_once hm h1 h2
+
+/-! ### the client's side of the exchange (client model) -/
+open SmtpV.Client in
+/-- **C09_client_exchange_rules.**  One round of `Client.Auth`'s loop on the client model, for every challenge, every mechanism
+    script and every state: (1) a 334 whose text is not base64 is answered with the cancel token and reported as an error, the
+    mechanism sees nothing; (2) a mechanism error on a decodable challenge is answered with the cancel token and reported as an
+    error; (3) a mechanism response is sent base64-encoded as the next line — nothing else — and the exchange goes on with the
+    server's answer; (4) 235 ends the exchange with success; (5) any other reply is the result, as an SMTP error. -/
+theorem C09_client_exchange_rules (fuel : Nat) (c : C) (msg64 : Bytes) (steps : List (Option (Option Bytes))) (seen : List String) :
+    (Server.b64Decode msg64 = none →
+      authLoop (fuel + 1) c (.ok 334 msg64) steps seen = ((c.cmd 501 [42]).1, some .other, seen)) ∧
+    (∀ ch, Server.b64Decode msg64 = some ch →
+      authLoop (fuel + 1) c (.ok 334 msg64) (none :: steps) seen = ((c.cmd 501 [42]).1, some .other, seen ++ [hexOfBytes ch])) ∧
+    (∀ ch resp, Server.b64Decode msg64 = some ch →
+      authLoop (fuel + 1) c (.ok 334 msg64) (some (some resp) :: steps) seen =
+        authLoop fuel (c.cmd 0 (Server.b64Encode resp)).1 (c.cmd 0 (Server.b64Encode resp)).2 steps (seen ++ [hexOfBytes ch])) ∧
+    authLoop (fuel + 1) c (.ok 235 msg64) steps seen = (c, none, seen) ∧
+    (∀ code, code ≠ 334 → code ≠ 235 →
+      authLoop (fuel + 1) c (.ok code msg64) steps seen = ((c.cmd 501 [42]).1, some (.smtp (toSMTPErr code msg64)), seen)) := by
+  refine ⟨?_, ?_, ?_, ?_, ?_⟩
+  · intro h; simp [authLoop, h]
+  · intro ch h; simp [authLoop, h]
+  · intro ch resp h; simp [authLoop, h]
+  · simp [authLoop]
+  · intro code h1 h2; simp [authLoop, h1, h2]
 
 end SmtpV.Props.C09
